@@ -102,7 +102,78 @@ def _worker(args):
       res = {'errors': [traceback.format_exc()], 'task': task}
   res['task_wall_s'] = time.time() - t0
   res['task_name'] = task.get('name', '')
+  try:
+    if 'jax' in sys.modules:
+      sys.modules['jax'].clear_caches()
+  except Exception:  # pylint: disable=broad-except
+    pass
   return res
+
+
+def _loop(pid, task_q, result_q, slot, maxtasks):
+  """Worker: serves at most maxtasks tasks, then exits (memory hygiene)."""
+  try:
+    os.sched_setaffinity(0, {slot % (os.cpu_count() or 1)})
+  except (AttributeError, OSError):
+    pass
+  for _ in range(maxtasks):
+    item = task_q.get()
+    if item is None:
+      return
+    i, task = item
+    result_q.put(('start', slot, i, None))
+    res = _worker((pid, task))
+    result_q.put(('done', slot, i, res))
+
+
+def _run_pool(pid, tasks, nproc, maxtasks):
+  """Own process pool: recycles workers, survives a killed worker."""
+  import queue as _queue
+  ctx = mp.get_context('spawn')
+  task_q, result_q = ctx.Queue(), ctx.Queue()
+  for i, t in enumerate(tasks):
+    task_q.put((i, t))
+  procs, inflight = {}, {}
+  results = {}
+
+  def spawn(slot):
+    p = ctx.Process(target=_loop, args=(pid, task_q, result_q, slot, maxtasks))
+    p.daemon = True
+    p.start()
+    procs[slot] = p
+  for slot in range(nproc):
+    spawn(slot)
+  while len(results) < len(tasks):
+    try:
+      kind, slot, i, res = result_q.get(timeout=1.0)
+      if kind == 'start':
+        inflight[slot] = i
+      else:
+        results[i] = res
+        inflight.pop(slot, None)
+      continue
+    except _queue.Empty:
+      pass
+    for slot, p in list(procs.items()):
+      if p.is_alive():
+        continue
+      p.join()
+      if slot in inflight:          # died with a task in hand
+        i = inflight.pop(slot)
+        if i not in results:
+          results[i] = {'errors': ['worker died (exit code %s) on task %s' %
+                                   (p.exitcode, tasks[i].get('name'))]}
+      if len(results) + len(inflight) < len(tasks):
+        spawn(slot)
+      else:
+        procs.pop(slot)
+  for p in procs.values():
+    task_q.put(None)
+  for p in procs.values():
+    p.join(timeout=5)
+    if p.is_alive():
+      p.terminate()
+  return [results[i] for i in range(len(tasks))]
 
 
 def _merge(results):
@@ -182,12 +253,7 @@ def run_check(pid, tier, seed):
   if nproc == 1 or getattr(mod, 'INPROCESS', False):
     results = [_worker((pid, t)) for t in tasks]
   else:
-    ctx = mp.get_context('spawn')
-    counter = ctx.Value('i', 0)
-    with ctx.Pool(nproc, initializer=_pin, initargs=(counter,),
-                  maxtasksperchild=getattr(mod, 'MAXTASKS', None)) as pool:
-      results = list(pool.imap_unordered(_worker, [(pid, t) for t in tasks],
-                                         chunksize=1))
+    results = _run_pool(pid, tasks, nproc, getattr(mod, 'MAXTASKS', 12))
   tot = _merge(results)
   if hasattr(mod, 'finalize'):
     mod.finalize(tot, tier, seed)
